@@ -4,6 +4,7 @@ package main
 import (
 	"bufio"
 	"bytes"
+	"compress/flate"
 	"context"
 	"crypto/sha1"
 	"fmt"
@@ -412,6 +413,52 @@ func utilSession(tag byte, n int) func(l logger) {
 	}
 }
 
+// meter is a compressor that counts the plaintext it is given (an application metering its
+// traffic per connection); it can be reset for another destination like flate.Writer itself.
+type meter struct {
+	*flate.Writer
+	seen *int
+}
+
+func (m meter) Write(p []byte) (int, error) { *m.seen += len(p); return m.Writer.Write(p) }
+
+// helperSession: a connection whose application compresses with a Helper of its own (its own
+// compression level, its own metering) next to connections that use the package's default
+// helper: what it sends is what that Helper's compressor makes of its messages, and its meter
+// counts its own plaintext only.
+func helperSession(tag byte, level int, n int) func(l logger) {
+	return func(l logger) {
+		seen := 0
+		h := wsflate.Helper{
+			Compressor: func(w io.Writer) wsflate.Compressor {
+				f, _ := flate.NewWriter(w, level)
+				return meter{f, &seen}
+			},
+			Decompressor: func(r io.Reader) wsflate.Decompressor { return flate.NewReader(r) },
+		}
+		for round := 0; round < 2; round++ {
+			msg := bytes.Repeat(fill(17, tag+byte(round)), n/17+1)[:n]
+			var out bytes.Buffer
+			err := h.CompressTo(yDstBuf{&out, l}, msg)
+			back, err2 := h.Decompress(out.Bytes())
+			l.Logf("own-helper level=%d message #%d err=%v/%v compressed=%s round-trip=%v metered=%d", level, round, err, err2, sum(out.Bytes()), bytes.Equal(back, msg), seen)
+			f, err3 := h.CompressFrame(ws.NewTextFrame(msg))
+			l.Logf("own-helper frame #%d err=%v rsv=%d payload=%s metered=%d", round, err3, f.Header.Rsv, sum(f.Payload), seen)
+			// and the package-level shortcut in between, as a library used by the application might
+			g, err4 := wsflate.CompressFrame(ws.NewTextFrame(msg))
+			l.Logf("default-helper frame #%d err=%v payload=%s metered=%d", round, err4, sum(g.Payload), seen)
+		}
+	}
+}
+
+// yDstBuf is a destination that yields to the scheduler before every write.
+type yDstBuf struct {
+	b *bytes.Buffer
+	l logger
+}
+
+func (y yDstBuf) Write(p []byte) (int, error) { y.l.Yield(); return y.b.Write(p) }
+
 type session struct {
 	name string
 	body func(l logger)
@@ -433,6 +480,8 @@ func sessions() map[string]session {
 	add("S3", utilSession(1, 150))
 	add("S3b", utilSession(2, 150))
 	add("S3L", utilSession(3, 5000))
+	add("S5", helperSession(4, flate.BestSpeed, 400))
+	add("S5b", helperSession(5, flate.HuffmanOnly, 400))
 	return m
 }
 
@@ -659,7 +708,7 @@ func main() {
 			t.Outcome("deterministic")
 			t.Note("each session alone: same log on the non-recycling pool twice and on the poisoning LIFO pool")
 		})
-		mixes2 := [][]string{{"S2s", "S2t"}, {"S4a", "S4b"}, {"S1", "S2"}, {"S1", "S1b"}, {"S2", "S2b"}, {"S1", "S3"}, {"S2", "S3"}, {"S3", "S3b"}, {"S1L", "S2L"}, {"S1L", "S1"}, {"S3L", "S2"}, {"S3L", "S3"}}
+		mixes2 := [][]string{{"S2s", "S2t"}, {"S4a", "S4b"}, {"S1", "S2"}, {"S1", "S1b"}, {"S2", "S2b"}, {"S1", "S3"}, {"S2", "S3"}, {"S3", "S3b"}, {"S1L", "S2L"}, {"S1L", "S1"}, {"S3L", "S2"}, {"S3L", "S3"}, {"S3", "S5"}, {"S5", "S5b"}}
 		mixes3 := [][]string{{"S1", "S2", "S3"}, {"S1", "S1b", "S2"}, {"S2", "S2b", "S3"}}
 		r.Part("E1-two-sessions-preemption-bounded", func(t *explore.T) {
 			b := t.Pick(2, 3)
